@@ -32,7 +32,7 @@ _TAGS = {
     "string-not-once-per-entry": "effect-count", "more-effects-than-entries-handed-over": "effect-count",
     "synced-moved-backwards": "synced-backwards", "sampled-synced-moved-backwards": "synced-backwards",
     "synced-ahead-of-effect": "synced-ahead-of-effect", "synced-position": "synced-position",
-    "synced-term": "synced-position",
+    "synced-term": "synced-position", "kv-not-the-last-set": "kv-value",
 }
 
 
@@ -254,19 +254,19 @@ def _run(ctx):
     if quick:
         stages = [
             ("mem-sim", "mem", sim + ["-seed", seed, "-n", "60"]),
-            ("mem-random", "mem", ["-random", "4", "-len", "40", "-seed", seed, "-n", "90"]),
-            ("pebble-random", "pebble", ["-random", "3", "-len", "40", "-seed", str(ctx.seed + 50), "-n", "90"]),
+            ("mem-random", "mem", ["-random", "4", "-len", "40", "-seed", seed, "-n", "90", "-agedays", "30"]),
+            ("pebble-random", "pebble", ["-random", "3", "-len", "40", "-seed", str(ctx.seed + 50), "-n", "90", "-agedays", "1100"]),
             # regression stage for ee3b302 (restart of a pebble receiver from its snapshot): strict
-            ("pebble-restart", "pebble", ["-random", "2", "-len", "40", "-seed", str(ctx.seed + 80), "-n", "90"]),
+            ("pebble-restart", "pebble", ["-random", "2", "-len", "40", "-seed", str(ctx.seed + 80), "-n", "90", "-agedays", "9"]),
         ]
     else:
         stages = [("mem-sim", "mem", sim + ["-seed", seed, "-n", "60"]),
                   ("pebble-sim", "pebble", sim + ["-seed", str(ctx.seed + 7), "-n", "60"]),
                   ("pebble-restart", "pebble", ["-random", "8", "-len", "50", "-seed", str(ctx.seed + 80), "-n", "120"])]
         for k in range(4):
-            stages.append(("mem-random-%d" % k, "mem", ["-random", "12", "-len", "60", "-seed", str(ctx.seed * 10 + k), "-n", "140"]))
+            stages.append(("mem-random-%d" % k, "mem", ["-random", "12", "-len", "60", "-seed", str(ctx.seed * 10 + k), "-n", "140", "-agedays", str([0, 8, 40, 2000][k])]))
         for k in range(3):
-            stages.append(("pebble-random-%d" % k, "pebble", ["-random", "10", "-len", "50", "-seed", str(ctx.seed * 10 + 5 + k), "-n", "120"]))
+            stages.append(("pebble-random-%d" % k, "pebble", ["-random", "10", "-len", "50", "-seed", str(ctx.seed * 10 + 5 + k), "-n", "120", "-agedays", str([0, 15, 400][k])]))
     stats = dict(events=0, segments=0, deliver=0, obs=0, sample=0, restart=0, snap=0, abort=0, mismatches=0,
                  deliveries_with_error=0, samples_mid_flight=0, selftest={}, runs=[])
     samples = []
